@@ -95,6 +95,8 @@ func main() {
 
 	var sites []site
 	nImports, nRanges, nFmt, nFP, nGo, nChan := 0, 0, 0, 0, 0, 0
+	nClock := 0
+	timeFiles := map[*ast.File]bool{}
 	for _, p := range pkgs {
 		if !strings.HasPrefix(p.PkgPath, module) || p.PkgPath == simrtPath || strings.HasPrefix(p.PkgPath, simrtPath+"/") {
 			continue
@@ -226,6 +228,26 @@ func main() {
 					n.Stmt = loop
 					c.Replace(&ast.BlockStmt{List: append(pre, n)})
 					return true
+				case *ast.SelectorExpr:
+					// clock seam: the wall clock and sleeping are the simulator's
+					x, ok := n.X.(*ast.Ident)
+					if !ok {
+						return true
+					}
+					pn, ok := p.TypesInfo.Uses[x].(*types.PkgName)
+					if !ok || pn.Imported().Path() != "time" {
+						return true
+					}
+					switch n.Sel.Name {
+					case "Now", "Since", "Until", "Sleep":
+						c.Replace(&ast.SelectorExpr{X: ast.NewIdent("__simrt"), Sel: ast.NewIdent("Time" + n.Sel.Name)})
+						needSimrt, changed = true, true
+						nClock++
+						timeFiles[f] = true
+					case "After", "AfterFunc", "NewTimer", "NewTicker", "Tick":
+						die("%s: time.%s (timers) is not supported by the clock seam", fname, n.Sel.Name)
+					}
+					return true
 				case *ast.CallExpr:
 					if id, ok := n.Fun.(*ast.Ident); ok && id.Name == "close" && len(n.Args) == 1 {
 						if _, isBuiltin := p.TypesInfo.Uses[id].(*types.Builtin); isBuiltin {
@@ -321,6 +343,32 @@ func main() {
 				nFP++
 			}
 
+			if timeFiles[f] {
+				// the file may have used package time for the clock only
+				used := false
+				ast.Inspect(f, func(n ast.Node) bool {
+					if se, ok := n.(*ast.SelectorExpr); ok {
+						if x, ok := se.X.(*ast.Ident); ok {
+							if pn, ok := p.TypesInfo.Uses[x].(*types.PkgName); ok && pn.Imported().Path() == "time" {
+								used = true
+							}
+						}
+					}
+					return !used
+				})
+				if !used {
+					for _, im := range f.Imports {
+						if im.Path.Value == `"time"` {
+							if im.Name != nil {
+								astutil.DeleteNamedImport(p.Fset, f, im.Name.Name, "time")
+							} else {
+								astutil.DeleteImport(p.Fset, f, "time")
+							}
+							break
+						}
+					}
+				}
+			}
 			if needSimrt {
 				astutil.AddNamedImport(p.Fset, f, "__simrt", simrtPath)
 			}
